@@ -9,7 +9,7 @@ from collections import Counter
 from pyvc.dsl import bounded
 from pyvc.bounded import replayer
 
-TIMES = [0.0, 100.0, 250.0, 1000.5]
+TIMES = [0.0, 100.0, 250.0, 1000.5, 1000.9]  # the last two lie inside the same millisecond
 BITS = (2, 4, 8)                      # whistle, finish, clap in the .osu format
 VOLUMES = [0, 20, 30]
 FILES = ["a.wav", "b.wav", "c.ogg", "d.wav", "e.wav"]
@@ -156,7 +156,7 @@ def _side(rng, times, max_per_time, sound_p, file_pool, hold_p, files_per_time=N
         nf = files_per_time if files_per_time is not None else 0
         one_vol = rng.choice(VOLUMES) if rng.random() < 0.4 else None
         for i, c in enumerate(cols):
-            ln = rng.choice([50.0, 300.0]) if rng.random() < hold_p else None
+            ln = rng.choice([50.0, 300.0, 300.0, 0.0]) if rng.random() < hold_p else None  # a hold may have length 0
             hs = rng.choice([0, 2, 4, 6, 8, 10, 12, 14]) if rng.random() < sound_p else 0
             v = one_vol if one_vol is not None else rng.choice(VOLUMES)
             f = pool.pop() if (i < nf and pool) else ""
